@@ -677,8 +677,22 @@ def run(ck, F, tier, only=None):
             vals = sorted(lit_value(a) for c in cl for a in c["args"])
             half = [n for n in walk(b.value) if n.get("k") == "bin" and n["op"] == "Mul" and lit_value(n["l"]) == 0.5]
             two = [n for n in walk(b.value) if n.get("k") == "bin" and n["op"] == "Mul" and lit_value(n["l"]) == 2.0 and any(x.get("k") == "mcall" and x["m"] == "atanh" for x in walk(n["r"]))]
-            ck.inst("K4", "%s:%s:tanh-constants" % (ty, meth), vals == sorted(want) and len(half) == 1 and len(two) == 1 and len(cl) == 1, b.span,
-                    "tanh(clamp(0.5*x, %s)) and 2*atanh(product): clamp bounds %s, 0.5* sites %d, 2*atanh sites %d" % (want, vals, len(half), len(two)))
+            # composition: the clamp is applied to the halved value and tanh to the clamped value - tanh(clamp(0.5 * x, -c, c))
+            def through(n_):
+                n_ = strip(n_)
+                while n_.get("k") == "path" and n_.get("res") == "local":
+                    # a local bound once to an expression: follow the binding
+                    lets = [st_ for blk_ in walk(b.value) if blk_.get("k") == "block" for st_ in blk_.get("stmts", [])
+                            if st_.get("k") == "let" and st_.get("pat", {}).get("k") == "bind" and st_["pat"].get("name") == n_.get("name") and "init" in st_]
+                    if len(lets) != 1:
+                        break
+                    n_ = strip(lets[0]["init"])
+                return n_
+            tanhs = [n for n in walk(b.value) if n.get("k") == "mcall" and n["m"] == "tanh"]
+            nest_ok = len(tanhs) == 1 and len(cl) == 1 and len(half) == 1 and through(tanhs[0]["recv"]) is cl[0] and through(cl[0]["recv"]) is half[0]
+            ck.inst("K4", "%s:%s:tanh-constants" % (ty, meth), vals == sorted(want) and len(half) == 1 and len(two) == 1 and len(cl) == 1 and nest_ok, b.span,
+                    "tanh(clamp(0.5*x, %s)) and 2*atanh(product): clamp bounds %s, 0.5* sites %d, 2*atanh sites %d, tanh of the clamp of the halved value: %s" % (
+                        want, vals, len(half), len(two), nest_ok))
     for ty in ("Phif64", "Phif32"):
         pb = F.body(ARI + ty + "::phi")
         e = SymEval(F, mode="real")
